@@ -138,11 +138,13 @@ impl XmlReader {
             .map_err(|e| WriterError::new(format!("Unable to parse file {file_name}: {e}")))?;
         let mut rust_doc = RustDocument::init(&doc);
 
+        // mark the file before its imports are followed, so that import cycles (mutual and self
+        // imports) find it processed instead of re-entering it
+        file.processed.store(true, std::sync::atomic::Ordering::SeqCst);
+
         for child in doc.root().children() {
             Self::read(child, files, &mut rust_doc)?;
         }
-
-        file.processed.store(true, std::sync::atomic::Ordering::SeqCst);
 
         Ok(rust_doc)
     }
